@@ -20,7 +20,7 @@ extern int xv_exc;
 #define XV_CANARY() __CPROVER_assert(0, "canary: end of harness reachable (must fail)")
 
 /* ghost index: arbitrary, so a statement about position xv_g holds for every position */
-extern unsigned long xv_g;
+extern unsigned long xv_g, xv_n, xv_k, xv_m;   /* xv_n, xv_k, xv_m: further ghost quantities (lengths, offsets) */
 
 /* allocation bound of the heap-storage models */
 #ifndef XV_MAXLEN
